@@ -267,6 +267,9 @@ type CrashCase struct {
 	All    bool
 	// Second are second-crash points in permille of the recovery run's write log, tried at every 3rd first point.
 	Second []int
+	// AnyOutcome: plugin outcomes are NOT a function of the action alone (scripts depend on the invocation / run
+	// number), so the "outcome equals the uninterrupted one" clause does not apply; every other clause does.
+	AnyOutcome bool
 	// Kill are real-kill cross-validation points (permille of the write log): a child process on a file-backed store
 	// is SIGKILLed after that write.
 	Kill []int
@@ -312,6 +315,8 @@ func RunCrashCase(c *CrashCase, which string, res *vprop.Result) {
 		nt := false
 		if which == "C09" {
 			nt = CheckC09(sc, d, rr, where, res)
+		} else if c.AnyOutcome {
+			nt = CheckC10(sc, d, rr, nil, where, res)
 		} else {
 			nt = CheckC10(sc, d, rr, ref, where, res)
 		}
@@ -344,7 +349,11 @@ func RunCrashCase(c *CrashCase, which string, res *vprop.Result) {
 	}
 	for _, p := range c.Kill {
 		k := 1 + p*(n-1)/1000
-		RealKill(sc, k, ref, which, res)
+		kref := ref
+		if c.AnyOutcome {
+			kref = nil
+		}
+		RealKill(sc, k, kref, which, res)
 		if len(res.Violations) > 0 {
 			return
 		}
